@@ -123,6 +123,15 @@ func init() {
 	register(Profile{Property: "C09", Name: "hash-chain", Gen: func(r *RNG, seed uint64, tier string) (*Scenario, *ExploreCfg) {
 		sc := mixedScenario(r, "C09", "hash-chain", mixOpts{clients: [2]int{2, 4}, opsPer: [2]int{1, 4}, wPostings: 4, wScript: 2, wRevert: 2, wMeta: 4, wIK: 0.1,
 			funds: "300", extraTx: 3, v1: 0.1, wBulk: 1, pristine: 0.2, forceSync: true}, "hash-chain", "logs-match-ops", "log-order")
+		if r.Chance(0.4) {
+			// hashing is decided by HASH_LOGS alone: the other features of the ledger switched off in every
+			// combination (wave 15, C09d: the hash trigger installed under another feature's condition)
+			for i := range sc.Setup {
+				if sc.Setup[i].Kind == KCreateLedger {
+					sc.Setup[i].Feats = featureMix(r, "SYNC")
+				}
+			}
+		}
 		ex := defaultExplore(seed, 0, 0)
 		if r.Chance(0.5) {
 			ex = defaultExplore(seed, 0.03, 3, FDeadlock, FStmtErr, FConnLost, FCommitClean, FCommitAmbiguous, FCrash, FDisconnect)
@@ -214,6 +223,11 @@ func init() {
 					op = Op{Kind: KPostings, Ledger: l, Postings: []PostingSpec{{"poor:1", "bank", "1000", "USD"}}}
 				case x < 9:
 					op = Op{Kind: KAcctMetaSet, Ledger: l, Address: Pick(r, users)}
+					if r.Chance(0.4) {
+						// the same request under the same idempotency key on both ledgers of the bucket: each ledger
+						// answers with a transaction of its own (wave 15, C16d)
+						op = Op{Kind: KPostings, Ledger: l, IK: "k-shared", Sig: "k-shared", Postings: []PostingSpec{{"world", "u:1", "7", "USD"}}}
+					}
 				default:
 					op = Op{Kind: KBulk, Ledger: l, Atomic: true}
 					for e := 0; e < 2; e++ {
@@ -896,6 +910,26 @@ func checkIDsFinal(r *runner, views map[string]*LedgerView) []Violation {
 			attempts[op.Ledger]++
 		}
 	}
+	// an acknowledged create answers with a transaction of its own ledger: the id it reports is held by that
+	// ledger, with the postings that were sent (an id drawn from - or a log replayed from - a sibling ledger is not)
+	for _, or := range r.results {
+		if or.Phase != "main" || or.Op.Kind != KPostings || or.Out.Class != "ok" || or.Out.Tx == nil || len(or.Faults) > 0 || or.Op.DryRun {
+			continue
+		}
+		v := views[or.Op.Ledger]
+		var t *ledger.Transaction
+		if v != nil {
+			t = v.Txs[or.Out.Tx.ID]
+		}
+		same := t != nil && len(t.Postings) == len(or.Op.Postings)
+		for i := 0; same && i < len(t.Postings); i++ {
+			p, q := t.Postings[i], or.Op.Postings[i]
+			same = p.Source == q.Source && p.Destination == q.Destination && p.Asset == q.Asset && p.Amount.String() == q.Amount
+		}
+		if !same {
+			vs = append(vs, Violation{prop, "ids-of-ledgers-are-independent", fmt.Sprintf("%s on ledger %s was acknowledged (hit=%v) with transaction id %d, and ledger %s holds no such transaction with the postings sent", or.Op.ID, or.Op.Ledger, or.Out.Hit, or.Out.Tx.ID, or.Op.Ledger)})
+		}
+	}
 	for _, name := range sortedKeys(views) {
 		v := views[name]
 		var maxTx, maxLog uint64
@@ -997,9 +1031,19 @@ func checkAccounts(r *runner, views map[string]*LedgerView) []Violation {
 	return vs
 }
 
-func checkAccountsAtCommit(prop string, rec CommitRec) []Violation {
+func checkAccountsAtCommit(prop string, rec CommitRec, clockMoved bool) []Violation {
 	var vs []Violation
 	for _, wr := range rec.Writes {
+		if wr.Key.Table == "acct" && wr.Before == nil && wr.After != nil && !clockMoved {
+			// "its insertion date is when it was first created": an instant of the database clock inside the
+			// transaction that created the row - not the effective date of the transaction that first used it
+			// (wave 15, C18d). Not judged in runs where the database clock was moved.
+			a := wr.After.(*AcctRow)
+			if a.InsertionDate.Time.Before(rec.Begin) || a.InsertionDate.Time.After(rec.At) {
+				vs = append(vs, Violation{prop, "insertion-date-is-the-creation-instant", fmt.Sprintf("commit %d: ledger %s account %s is created with insertion date %s; the transaction creating it ran from %s to %s on the database clock", rec.Seq, wr.Key.Ledger, wr.Key.Key,
+					a.InsertionDate.Time.Format("2006-01-02T15:04:05.999999Z"), rec.Begin.Format("2006-01-02T15:04:05.999999Z"), rec.At.Format("2006-01-02T15:04:05.999999Z"))})
+			}
+		}
 		if wr.Key.Table != "acct" || wr.Before == nil || wr.After == nil {
 			continue
 		}
